@@ -43,7 +43,21 @@ def mbf_value(b):
     return -v if neg else v
 
 
+def _zero_mantissa(ctx, rep):
+    """from_decimal scales the denormalised mantissa by ten once per unit of the exponent; the scaling routines work on a
+    normalised mantissa, so a zero mantissa must return zero before any scaling (0E5 is 0)."""
+    fd = ctx.fn('pcbasic/basic/values/numbers.py:Float.from_decimal')
+    fl = ctx.flow(fd)
+    scal = [c for c in own_nodes(fd) if isinstance(c, ast.Call) and norm(c.func) in ('self._mul10_den', 'self._div10_den')]
+    rep.floor('literal.zero-mantissa-is-zero', len(scal), 2, 'scaling steps in from_decimal')
+    early = [r for r in own_nodes(fd) if isinstance(r, ast.Return) and any(f.pol and f.text in ('not mantissa', 'mantissa == 0') for f in fl.facts(r))]
+    rep.ob('literal.zero-mantissa-is-zero', 'from_decimal returns zero for a zero mantissa before scaling by the exponent',
+           len(early) == 1 and norm(early[0].value) in ('self.from_int(0)', 'self.from_int(mantissa)') and all(early[0].lineno < c.lineno for c in scal),
+           'a zero mantissa goes through the scaling loops: 0E5 becomes 1.469368E-34', ctx.where(fd))
+
+
 def check(ctx, rep):
+    _zero_mantissa(ctx, rep)
     digits = {}
     for cname in ('Single', 'Double'):
         ca = class_assigns(ctx.cls('%s:%s' % (N, cname)))
@@ -137,6 +151,8 @@ def variants(ctx):
         return lambda tree: f(mu.find_def(tree, fname))
 
     return [
+        mu.Variant('zero-mantissa-scaled-by-exponent', 'break', 'pcbasic/basic/values/numbers.py',
+                   lambda tree: mu.remove_stmt(mu.find_def(tree, 'Float.from_decimal'), lambda st: isinstance(st, ast.If) and norm(st.test) == 'not mantissa'), expect='literal.zero-mantissa-is-zero'),
         Va('zeros-before-point-discounted', 'break', N,
            in_fn('str_to_decimal', lambda fn: mu.replace_expr(fn, mu.text_is("found_point and c == b'0'"), "c == b'0'")), expect='literal.trailing-zeros'),
         Va('threshold-8', 'break', N,
